@@ -79,17 +79,18 @@ class SigmaValidator:
 
         # Build exclusion dict
         try:
-            exclusions = {
-                (UUID(rule_id) if rule_id is not None else None): {
+            exclusions: dict[UUID | None, set[Type[SigmaRuleValidator]]] = dict()
+            for rule_id, rule_exclusions in d.get("exclusions", dict()).items():
+                # Different spellings of the same id (e.g. upper and lower case) end up under the
+                # same key and must be merged instead of overwriting each other.
+                exclusions.setdefault(UUID(rule_id) if rule_id is not None else None, set()).update(
                     validators[
                         exclusion_name
                     ]  # main purpose of the generators: resolve identifiers into classes
                     for exclusion_name in (
                         rule_exclusions if isinstance(rule_exclusions, list) else [rule_exclusions]
                     )
-                }
-                for rule_id, rule_exclusions in d.get("exclusions", dict()).items()
-            }
+                )
         except KeyError as e:
             raise SigmaConfigurationError(f"Unknown validator '{ e.args[0] }'")
 
